@@ -106,23 +106,19 @@ def run(tier, config):
     if tcp is None:
         rep.add("socket::TcpSocketImpl::new|connect", "C12:D1", False, "TcpSocketImpl::new not found")
     else:
-        keys = {}
-        for f in Q.bodies(c):
-            if f["path"].startswith(tcp["path"]):
-                for bi, t, k in Q.calls(f):
-                    if k.startswith("TcpStream::connect"):
-                        keys[k.split("@")[0]] = (f, t)
-        has_to = "TcpStream::connect_timeout" in keys
-        src = ""
-        for bi, t, k in Q.calls(tcp):
-            if k.startswith("Option::map_or_else") or k.startswith("Option::map_or"):
-                src = Q.render(tcp, t["args"][0], 6)
-        ok = has_to and "get_connect_or_default" in src
-        if has_to:
-            f2, t2 = keys["TcpStream::connect_timeout"]
-            ok = ok and Body(f2).render_operand(t2["args"][1], 4, names=False).startswith("arg")
+        # decided on the canonical term of the constructor (sym.py): the stream is
+        #   match get_connect_or_default(settings) { Some(_) => connect_timeout(address, <that duration>); _ => connect(address) }
+        # however it is spelled (map_or_else, match, if let)
+        import re as _re
+        from .. import tracespec as TS
+        rows = TS.rows_of(c, tcp, {})
+        txt = " ".join(rows)
+        m = _re.search(r"match (\S*get_connect_or_default\(a1\)) \{Some\(_\) => TcpStream::connect_timeout\(a0, (\S*get_connect_or_default\(a1\))\.Some\); _ => TcpStream::connect\(a0\)\}", txt)
+        ok = bool(m) and m.group(1) == m.group(2)
+        n_conn = txt.count("TcpStream::connect")
         rep.add("%s|connect-timeout" % Q.disp(tcp), "C12:D1", ok,
-                "connect uses connect_timeout with the configured duration when get_connect_or_default(..) is Some (selector: %s; calls: %s)" % (src[:120], sorted(keys)), tcp["span"])
+                "the TCP stream is connect_timeout(address, d) when get_connect_or_default(settings) is Some(d) and connect(address) otherwise" if ok else
+                "TcpSocketImpl::new does not choose connect_timeout(address, configured duration) / connect(address) on get_connect_or_default(settings): %s" % txt[:300], tcp["span"])
     # D2 raw socket constructors only in the transport layer
     raw = Q.find_calls(c, lambda k, p: k.split("@")[0] in ("UdpSocket::bind", "TcpStream::connect", "TcpStream::connect_timeout", "TcpListener::bind", "UdpSocket::connect"))
     n_raw = 0
